@@ -302,6 +302,7 @@ struct Recorder {
     panics: u64,
     cfgs: u64,
     runs: u64,
+    switched: u64,
     sample: Vec<Value>,
 }
 
@@ -566,6 +567,7 @@ fn scenario(
             match ep.construct_switched(kind, fanout, v, &warm) {
                 Ok(i) => {
                     sc.inst[2][v] = Some(i);
+                    rec.switched += 1;
                     rec.emit(json!({"op": "note", "node": v, "inst": 2,
                                     "what": "built with an outdated sampler/fanout, routed all shreds of this configuration, then switched with with_sampler/with_fanout"}));
                 }
@@ -702,6 +704,7 @@ pub fn run(out_dir: &str, tier: &str, seed: u64) -> anyhow::Result<Value> {
                     panics: 0,
                     cfgs: 0,
                     runs: 0,
+                    switched: 0,
                     sample: Vec::new(),
                 },
             ));
@@ -748,7 +751,8 @@ pub fn run(out_dir: &str, tier: &str, seed: u64) -> anyhow::Result<Value> {
             rec.out.flush()?;
             report.push(json!({"label": label, "kind": kind, "trace": path, "events": rec.events,
                                "calls": rec.calls, "probes": rec.probes, "panics": rec.panics,
-                               "cfgs": rec.cfgs, "runs": rec.runs, "samples": rec.sample}));
+                               "cfgs": rec.cfgs, "runs": rec.runs, "switched_instances": rec.switched,
+                               "samples": rec.sample}));
         }
     }
     Ok(json!({"model": "dissem", "traces": report, "copies": COPIES, "stake_vectors": stakes}))
